@@ -74,6 +74,21 @@ def gen_instances(ck: Check):
     for m in (63, 64, 125, 126, 200):    # small enough for square bins with bin-sized items
         it = [[m, m, 1], [m - 1, 1, 2], [1, m, 1], [m // 2, m // 2 + 1, 2]]
         yield "dtype-threshold", m, m, it, [signed_perm(rng, it) for _ in range(3)]
+    # tall / wide bins whose largest item is much longer than the smaller bin side: the transient top edge H + h (or the
+    # right edge) comes close to max_dim + max_size, i.e. to the limit the storage type was chosen for; several copies so
+    # that columns are already occupied when the next one comes down (found missing by seeded change C01-dtype-tall)
+    for base in (127, 32767):
+        for (small, frac) in ((10, 0.9), (3, 0.97), (base // 4, 0.75), (1, 1.0)):
+            for delta in (-2, -1, 0, 1, 2):
+                big = (base - 1 + delta) // 2          # big + h + 1 straddles `base` when h ~ big
+                if big <= small:
+                    continue
+                h = max(small + 1, int(big * frac))
+                for (W, H) in ((small, big), (big, small)):
+                    it = [[min(small, max(1, small // 2)), h, 3], [small, big, 1], [1, 1, 2]] if W < H \
+                        else [[h, min(small, max(1, small // 2)), 3], [big, small, 1], [1, 1, 2]]
+                    xs = [signed_perm(rng, it) for _ in range(3)] + [[1, 1, 1, 2, 3, 3], [-1, 1, -1, 3, 2, 3]]
+                    yield "dtype-tall", W, H, it, xs
     for n in (126, 127, 128):   # n_items + 1 at the int8 edge
         yield "dtype-nitems", 4, 4, [[1, 1, n]], [[1] * n, [-1] * n]
     yield "boundary", 10**12, 7, [[7, 5, 1], [7, 7, 2], [3, 3, 3]], \
